@@ -5,7 +5,8 @@ SPEC = dict(
     claim="Lean theorems: the desolvation loop skips atoms at or beyond both cut-offs without touching its accumulators - for any scalar, "
           "floats included - so removing them changes neither the volume nor the count; Coulomb, hydrogen-bond and backbone-"
           "reorganisation energies vanish beyond their outer cut-offs; all shipped ranges are at most 20 A (decided on the regenerated "
-          "cfg); one step of the iterative scheme reads only the two groups of the interaction it processes and a group's new pKa only "
+          "cfg, the two backbone hydrogen-bond tables included, and carried over to the reals: inst_backbone_zero_beyond_20, "
+          "shipped_coulomb_zero_beyond; the same kernels are evaluated at 20 A on the real parameter objects); one step of the iterative scheme reads only the two groups of the interaction it processes and a group's new pKa only "
           "the determinants it owns; hence (iterate_componentwise, by induction over iterations with the annihilation memory restricted "
           "alongside) after the same number k of global iterations every group of a closed sub-system has the same pKa and the same "
           "determinants in the whole system as alone, and what the solver reports for it is what the sub-system reports after some "
